@@ -12,6 +12,21 @@ import numpy as np
 
 PERIOD = 199
 
+# Lengths that are multiples of as many plausible block sizes as possible: 6*10^6 is a multiple of 10^k, 2*10^k,
+# 3*10^k, 5*10^k, 6*10^k, 1.5*10^k, 2.5*10^k, 1.2*10^k, 4*10^5, 7.5*10^5 ...; 2^21 of every power of two below it.
+# The thorough tier adds 12*10^6 (4*10^6, 8*10^5 ...), 10^7 (5*10^6, 2.5*10^6 ...) and 2^23.
+MARKS_QUICK = (6000000, 2097152)
+MARKS_THOROUGH = (6000000, 2097152, 12000000, 10000000, 8388608)
+# for code that is slow per element (pure-Python loops, text files)
+MARKS_QUICK_SMALL = (600000, 65536)
+MARKS_THOROUGH_SMALL = (600000, 65536, 6000000, 1048576, 1000000)
+
+
+def marks(ctx, small=False):
+    if small:
+        return ctx.pick(MARKS_QUICK_SMALL, MARKS_THOROUGH_SMALL)
+    return ctx.pick(MARKS_QUICK, MARKS_THOROUGH)
+
 
 def lengths_for(marks):
     out = []
@@ -36,9 +51,10 @@ def _same(a, b):
     return None
 
 
-def tiled_elementwise(ctx, name, specs, marks):
+def tiled_elementwise(ctx, name, specs, marks, small=None, small_marks=None):
     """specs: {label: (make_base, call)}; make_base() -> tuple of 1-d arrays of length PERIOD (the varying arguments);
-    call(*arrays) -> array or tuple of arrays with one row per input element."""
+    call(*arrays) -> array or tuple of arrays with one row per input element.  Labels for which ``small(label)`` is
+    true run at ``small_marks`` instead of ``marks`` (slow code, or more of the same code path)."""
     def one(case, rec):
         label, n = case
         make_base, call = specs[label]
@@ -71,6 +87,9 @@ def tiled_elementwise(ctx, name, specs, marks):
                 return rec.fail(case, "%s on %d elements, output %d: %s" % (label, n, j, m))
         rec.ok(case, outcome="tiled:%s" % label, nontrivial=True, calls=2)
 
-    units = [(label, n) for label in specs for n in lengths_for(marks)]
+    units = [(label, n) for label in specs for n in lengths_for(small_marks if (small and small(label)) else marks)]
+    units.sort(key=lambda u: -u[1])
     return ctx.lattice(name, units, one, bounds=dict(functions=sorted(specs), marks=list(marks), period=PERIOD,
+                                                       small_marks=list(small_marks or ()),
+                                                       functions_at_small_marks=sorted(l for l in specs if small and small(l)),
                                                        lengths="mark, mark+1, mark+period+1"))
